@@ -184,7 +184,7 @@ def instantiate_and_compile(nodes, in_function=True, generator=False):
         nodes = [ast.Expr(nodes[0])]
     mk_args = lambda: ast.arguments(posonlyargs=[], args=[], vararg=None, kwonlyargs=[], kw_defaults=[], kwarg=None, defaults=[])
     fn = ast.FunctionDef(name="wrapper", args=mk_args(), body=nodes or [ast.Pass()], decorator_list=[], returns=None, type_params=[])
-    outer = ast.FunctionDef(name="outer", args=mk_args(), body=[ast.Assign(targets=[ast.Name(id="nn", ctx=ast.Store())], value=ast.Constant(0)), fn],
+    outer = ast.FunctionDef(name="outer", args=mk_args(), body=[ast.Assign(targets=[ast.Name(id="nn", ctx=ast.Store()), ast.Name(id="fv", ctx=ast.Store())], value=ast.Constant(0)), fn],
                             decorator_list=[], returns=None, type_params=[])
     mod = ast.Module(body=[outer], type_ignores=[])
     for x in ast.walk(mod):
@@ -308,10 +308,12 @@ ASSIGN_SCHEMAS = [
     ("deep-attribute", "o.a.b = __E1", []),
     ("call-attribute", "f().attr = __E1", []),
     ("chained", "x = y = __E1", [("x", None, None, "_ptera__0", True), ("y", None, None, "_ptera__0", True)]),
-    ("tuple", "a, b = __E1", [("a", None, None, "_ptera__0[0]", True), ("b", None, None, "_ptera__0[1]", True)]),
-    ("nested-tuple", "a, (b, cc) = __E1", [("a", None, None, "_ptera__0[0]", True), ("b", None, None, "_ptera__1[0]", True), ("cc", None, None, "_ptera__1[1]", True)]),
-    ("starred", "a, *b = __E1", [("a", None, None, "_ptera__0[0]", True), ("b", None, None, "_ptera__0[1]", True)]),
-    ("list-target", "[a, b] = __E1", [("a", None, None, "__VE1[0]", True), ("b", None, None, "__VE1[1]", True)]),
+    ("tuple", "a, b = __E1", [("a", None, None, "_ptera__0", True), ("b", None, None, "_ptera__1", True)]),
+    ("nested-tuple", "a, (b, cc) = __E1", [("a", None, None, "_ptera__0", True), ("b", None, None, "_ptera__2", True), ("cc", None, None, "_ptera__3", True)]),
+    ("starred", "a, *b = __E1", [("a", None, None, "_ptera__0", True), ("b", None, None, "_ptera__1", True)]),
+    ("list-target", "[a, b] = __E1", [("a", None, None, "_ptera__0", True), ("b", None, None, "_ptera__1", True)]),
+    ("tuple-with-attribute", "o.x, b = __E1", [("o", ("attr", "x"), None, "_ptera__0", True), ("b", None, None, "_ptera__1", True)]),
+    ("chained-tuple", "a, b = cc = __E1", [("a", None, None, "_ptera__1", True), ("b", None, None, "_ptera__2", True), ("cc", None, None, "_ptera__0", True)]),
 ]
 
 
@@ -504,6 +506,8 @@ FOR_SCHEMAS = [
     ("tuple-target", "for a, b in __E1:\n    __S1", ["a", "b"], [("a", None, None, "a", True), ("b", None, None, "b", True)]),
     ("nested-tuple-target", "for a, (b, cc) in __E1:\n    __S1", ["a", "b", "cc"], [("a", None, None, "a", True), ("b", None, None, "b", True), ("cc", None, None, "cc", True)]),
     ("starred-target", "for a, *b in __E1:\n    __S1", ["a", "b"], [("a", None, None, "a", True), ("b", None, None, "b", True)]),
+    ("list-target", "for [a, b] in __E1:\n    __S1", ["a", "b"], [("a", None, None, "a", True), ("b", None, None, "b", True)]),
+    ("subscript-target", "for o[0] in __E1:\n    __S1", ["o"], []),
     ("attribute-target", "for o.k in __E1:\n    __S1", ["o"], []),
 ]
 
@@ -567,6 +571,8 @@ PASS_SCHEMAS = [
     ("if", "if __E1:\n    __S1\nelif __E2:\n    __S2\nelse:\n    __S3", []),
     ("with-target", "with __E1 as w:\n    __S1", [("w", None, None, "w", True)]),
     ("with-no-target", "with __E1:\n    __S1", []),
+    ("with-two-targets", "with __E1 as w, __E2 as (p, q):\n    __S1", [("w", None, None, "w", True), ("p", None, None, "p", True), ("q", None, None, "q", True)]),
+    ("with-attribute-target", "with __E1 as o.f:\n    __S1", []),
     ("nested-def", "def g(a, b=__E1):\n    x = 1\n    return x", []),
     ("nested-class", "class A(__E1):\n    def m(self):\n        return 1", []),
     ("nested-class-body", "class A:\n    v = __E1\n    def m(self):\n        w = 1", []),
@@ -611,6 +617,7 @@ def _split_root(out):
     doc = None
     if body and isinstance(body[0], ast.Expr) and isinstance(body[0].value, ast.Constant) and isinstance(body[0].value.value, str):
         doc, body = body[0], body[1:]
+    body = [s for s in body if not isinstance(s, (ast.Global, ast.Nonlocal))]  # hoisted declarations
     if len(body) != 1 or not isinstance(body[0], ast.With):
         return None
     w = body[0]
